@@ -4,6 +4,7 @@
 SPECIFICATION Spec
 CONSTANTS N = 2
           MaxCrashes = 2
+          Features = {"crash", "fail"}
           MaxFails = 1
           MtLen = 0
           CaseN = 2
